@@ -145,6 +145,20 @@ def native_exhaust(binary, harness, alphabets, timeout=900):
     rc, so, se, dt = run([binary, 'exhaust', harness, alphabets], timeout=timeout)
     m = re.search(r'EVALUATED (\d+) REJECTED (\d+)', so)
     fails = re.findall(r'^FAILED (\S+) INPUT (\S*)', so, re.M)
+    if rc is not None and rc < 0 and rc != -9 and ('overflowed its stack' in se or rc in (-6, -11, -4)):
+        # the code under test took the whole process down (stack overflow = runaway recursion, abort): enumerate again with the
+        # last-input trace on and report the input that was being evaluated when it died
+        trace = os.path.join(WORK, 'last_input.%d.%d.txt' % (os.getpid(), threading.get_ident()))
+        rc2, so2, se2, dt2 = run([binary, 'exhaust', harness, alphabets], timeout=timeout * 3, extra_env={'RUNNER_LAST_INPUT_FILE': trace})
+        inp = []
+        try:
+            inp = [int(x) for x in open(trace).read().strip().split(',') if x.strip()]
+            os.unlink(trace)
+        except Exception:
+            pass
+        if rc2 is not None and rc2 < 0 and inp:
+            return {'evaluated': 0, 'rejected': 0, 'failures': [{'obligation': 'no_crash', 'input': inp}], 'time': dt + dt2,
+                    'crash': (se or se2)[-600:]}
     if rc not in (0, 1) or not m:
         raise Inconclusive('native exhaust %s failed rc=%s\n%s\n%s' % (harness, rc, so[-2000:], se[-2000:]))
     return {'evaluated': int(m.group(1)), 'rejected': int(m.group(2)),
